@@ -52,7 +52,7 @@ func (w WpkhWallet) Script(opts *ScriptOpts) ([]ScriptResponse, error) {
 			if opts.numOfScripts != nil {
 				generateMoreScripts = true
 				numOfScriptsToBeGenerated = *opts.numOfScripts
-			} else {
+			} else if opts.index != nil {
 				index = *opts.index
 			}
 		}
